@@ -802,6 +802,20 @@ func astFromValue(value interface{}, ttype Type) ast.Value {
 			Value: fmt.Sprintf("%v", value),
 		})
 	}
+	// integers of the other Go kinds (a default of int64(5) is as good an
+	// Int as 5) are number literals too, not strings
+	switch valueVal.Kind() {
+	case reflect.Int, reflect.Int8, reflect.Int16, reflect.Int32, reflect.Int64,
+		reflect.Uint, reflect.Uint8, reflect.Uint16, reflect.Uint32, reflect.Uint64:
+		if ttype == Float {
+			return ast.NewIntValue(&ast.IntValue{
+				Value: fmt.Sprintf("%v.0", valueVal.Interface()),
+			})
+		}
+		return ast.NewIntValue(&ast.IntValue{
+			Value: fmt.Sprintf("%v", valueVal.Interface()),
+		})
+	}
 	if value, ok := value.(float32); ok {
 		return ast.NewFloatValue(&ast.FloatValue{
 			Value: fmt.Sprintf("%v", value),
